@@ -295,6 +295,11 @@ impl BufPolicy for HPolicy {
             }
         };
         self.log.calls.borrow_mut().push((self.gen, cur, r));
+        // a reader that keeps asking without ever returning (a policy answer that frees no space)
+        // never touches the source, so the source-call budget cannot see it
+        if self.log.calls.borrow().len() > 100_000 {
+            panic!("VERIF-HANG: the policy was consulted more than 100000 times by one reader (last request grow_to({}) -> {:?})", cur, r);
+        }
         if r.is_none() {
             self.log.refused_in_api.set(true);
         }
